@@ -55,7 +55,10 @@ def gen(rng, tier, shape=None):
     ctr = A.Ctr()
     cls = rng.choice(["K", "K", "KA"])
     names = [n for n, _ in FIELDS]
-    old_names = rng.sample(names, rng.randint(0, 4))
+    # positional arguments: a prefix of the fields, written without their names (hand-written style `K(1, [2])`)
+    npos = rng.choice([0, 0, 0, 1, 2, 3]) if rng.random() < 0.5 else 0
+    pos_names = names[:npos]
+    old_names = pos_names + rng.sample(names[npos:], rng.randint(0, min(4, len(names) - npos)))
     old_kw = []
     for n in old_names:
         dflt = dict(FIELDS)[n]
@@ -82,11 +85,12 @@ def gen(rng, tier, shape=None):
         elif r < 0.5:
             new[n] = A.rand_val(rng, 1)
     flags = sorted(c for c in ["fix", "update"] if rng.random() < 0.55)
-    return {"cls": cls, "old_kw": old_kw, "new": new, "flags": flags}
+    return {"cls": cls, "old_kw": old_kw, "new": new, "flags": flags, "npos": npos}
 
 
 def arg_src(case):
-    return case["cls"] + "(" + ", ".join(f"{n}={A.render(e)}" for n, e in case["old_kw"]) + ")"
+    k = case.get("npos", 0)
+    return case["cls"] + "(" + ", ".join((A.render(e) if i < k else f"{n}={A.render(e)}") for i, (n, e) in enumerate(case["old_kw"])) + ")"
 
 
 def new_src(case):
@@ -103,8 +107,11 @@ def is_default(n, v):
 
 
 def model_lines(case):
-    kw = [[NAME_ID[n], A.expr_sx(e)] for n, e in case["old_kw"]]
+    k = case.get("npos", 0)
+    kw = [[NAME_ID[n], A.expr_sx(e)] for n, e in case["old_kw"][k:]]
     fields = [[NAME_ID[n], A.val_sx(case["new"][n]), bool(is_default(n, case["new"][n]))] for n, _d in FIELDS]
+    if k:
+        return [sx(["callassign", ["flags"] + case["flags"], ["pos"] + [A.expr_sx(e) for _n, e in case["old_kw"][:k]], ["kw"] + kw, ["fields"] + fields])]
     return [sx(["callassign", ["flags"] + case["flags"], ["kw"] + kw, ["fields"] + fields])]
 
 
@@ -122,8 +129,9 @@ def run_impl(case):
         call = impl_inline.snapshot_args(after)[0]
         node = call[3].args[0]
         obs["arg"] = call[2]
-        if isinstance(node, ast.Call) and not node.args:
+        if isinstance(node, ast.Call):
             obs["kw"] = [[str(NAME_ID.get(k.arg, 0)), A.ast_to_norm(k.value, after, texts)] for k in node.keywords]
+            obs["pos"] = [A.ast_to_norm(a, after, texts) for a in node.args]
         else:
             obs["kw"] = ["not-a-keyword-call", ast.dump(node)[:80]]
     except Exception as e:  # noqa: BLE001
@@ -159,6 +167,9 @@ def compare(case, obs, model_out):
     mkw = [[p[0], A.norm_model_expr(p[1])] for p in o[2][1:]]
     if mkw != obs["kw"]:
         diffs.append(("keywords", ["C11", "C02", "C10", "C09"], f"model {sx(mkw)} impl {sx(obs['kw'])}"))
+    mpos = [A.norm_model_expr(p) for p in o[4][1:]] if len(o) > 4 else []
+    if mpos != obs.get("pos", []):
+        diffs.append(("positional", ["C11", "C02", "C05"], f"model {sx(mpos)} impl {sx(obs.get('pos'))}"))
     return diffs
 
 
@@ -171,6 +182,16 @@ def oracle(case, obs):
     managed = all(A.managed(e) for _n, e in case["old_kw"])
     if "fix" in fl and managed and obs.get("rerun_disabled") is not True:
         fails.append(("C02", "fix_repairs", f"{arg_src(case)} -> {obs.get('arg')!r} for {new_src(case)}: disabled re-run gives {obs.get('rerun_disabled')!r}"))
+    # C05: fix is reported exactly when the comparison against the current value fails
+    if managed:
+        oldv = {n: d for n, d in FIELDS}
+        for n, e in case["old_kw"]:
+            oldv[n] = A.expr_value(e)
+        same = all(sx(A.val_sx(oldv[n])) == sx(A.val_sx(case["new"][n])) for n, _d in FIELDS)
+        if same and "fix" in obs["cats"]:
+            fails.append(("C05", "fix_only_when_failing", f"{arg_src(case)} compared with the equal value {new_src(case)} passes, but fix is reported (cats {obs['cats']})"))
+        if not same and obs["R"] == [False] and "fix" not in obs["cats"]:
+            fails.append(("C05", "fix_when_failing", f"{arg_src(case)} compared with {new_src(case)} fails, but no fix is reported (cats {obs['cats']})"))
     # C10: an unmanaged keyword value is never rewritten (it may only disappear together with its keyword)
     if obs.get("arg") is not None:
         argn = obs["arg"].replace(" ", "").replace("\n", "")
@@ -183,7 +204,7 @@ def oracle(case, obs):
     #      (call keyword / dict key path, or list position inside the equal common prefix) keeps its text
     if "update" not in fl and obs.get("arg") is not None:
         arg = obs["arg"].replace(" ", "").replace("\n", "")
-        for n, e in case["old_kw"]:
+        for n, e in case["old_kw"][case.get("npos", 0):]:     # positional arguments are converted to keywords by design
             newv = case["new"][n]
             if is_default(n, newv):
                 continue              # the keyword itself is removed
@@ -230,6 +251,7 @@ def signature(case):
 
 def histogram(case, obs, hist):
     hist["cls:" + case["cls"]] = hist.get("cls:" + case["cls"], 0) + 1
+    hist["positional:%d" % case.get("npos", 0)] = hist.get("positional:%d" % case.get("npos", 0), 0) + 1
     hist["old_kw:" + str(len(case["old_kw"]))] = hist.get("old_kw:" + str(len(case["old_kw"])), 0) + 1
     for c in obs["cats"]:
         hist["cat:" + c] = hist.get("cat:" + c, 0) + 1
